@@ -35,9 +35,9 @@ Proof. exact header_value_encode_total. Qed.
 
 (* Content-Disposition with a file name (rfc2231::encode: the unchecked `MAX_LINE_LEN - line_len - 3`, the section
    counter, the percent-encoding loop) never panics and never runs out of steps for any UTF-8 file name shorter than
-   1000 octets *)
+   100 000 octets *)
 Theorem C19_content_disposition_never_panics : forall kind fname : bytes,
-  kind = bs "attachment" \/ kind = bs "inline" -> utf8_valid fname = true -> (length fname < 1000)%nat ->
+  kind = bs "attachment" \/ kind = bs "inline" -> utf8_valid fname = true -> (length fname < 100 * 1000)%nat ->
   exists e, content_disposition_encode kind fname = Ok e.
 Proof.
   intros kind fname Hk Hu Hl. destruct (filename_roundtrip_utf8 kind fname Hk Hu Hl) as (e & E & _). exists e. exact E.
